@@ -22,6 +22,20 @@ func init() {
 	}
 }
 
+type (
+	romanNamedS string
+	romanNamedB []byte
+)
+
+// romanTyped: "a typed error" is any instantiation of the package's generic error type.
+func romanTyped(err error) bool {
+	var a *roman.NumberFormatError[string]
+	var b *roman.NumberFormatError[[]byte]
+	var c *roman.NumberFormatError[romanNamedS]
+	var d *roman.NumberFormatError[romanNamedB]
+	return errors.As(err, &a) || errors.As(err, &b) || errors.As(err, &c) || errors.As(err, &d)
+}
+
 func c10Fail(w *rt.W, key, text string, r roman.Rule, path, got, want string) {
 	w.Fail(key, "parse", rt.Args("text", text, "rule", int(r), "path", path), got, want, path+" disagrees with the group-table reference evaluator")
 }
@@ -47,57 +61,47 @@ func c10Case(w *rt.W, text string, r roman.Rule) (accepted bool) {
 	var out []res
 	{
 		g, err := roman.DefaultParser(text, r)
-		var pe *roman.NumberFormatError[string]
-		out = append(out, res{"DefaultParser[string]", g, err, false, errors.As(err, &pe)})
+		out = append(out, res{"DefaultParser[string]", g, err, false, romanTyped(err)})
 	}
 	{
 		g, err := roman.DefaultParser([]byte(text), r)
-		var pe *roman.NumberFormatError[[]byte]
-		out = append(out, res{"DefaultParser[[]byte]", g, err, false, errors.As(err, &pe)})
+		out = append(out, res{"DefaultParser[[]byte]", g, err, false, romanTyped(err)})
 	}
 	{
 		err := roman.Valid(text, r)
-		var pe *roman.NumberFormatError[string]
-		out = append(out, res{"Valid[string]", 0, err, true, errors.As(err, &pe)})
+		out = append(out, res{"Valid[string]", 0, err, true, romanTyped(err)})
 	}
 	{
 		err := roman.Valid([]byte(text), r)
-		var pe *roman.NumberFormatError[[]byte]
-		out = append(out, res{"Valid[[]byte]", 0, err, true, errors.As(err, &pe)})
+		out = append(out, res{"Valid[[]byte]", 0, err, true, romanTyped(err)})
 	}
 	{ // named string / byte-slice types are legal instantiations of the generic entry points
-		type nS string
-		type nB []byte
-		g, err := roman.DefaultParser(nS(text), r)
-		var pe *roman.NumberFormatError[nS]
-		out = append(out, res{"DefaultParser[named string]", g, err, false, errors.As(err, &pe)})
-		g, err = roman.DefaultParser(nB(text), r)
-		var pb *roman.NumberFormatError[nB]
-		out = append(out, res{"DefaultParser[named []byte]", g, err, false, errors.As(err, &pb)})
-		err = roman.Valid(nS(text), r)
-		out = append(out, res{"Valid[named string]", 0, err, true, errors.As(err, &pe)})
-		err = roman.Valid(nB(text), r)
-		out = append(out, res{"Valid[named []byte]", 0, err, true, errors.As(err, &pb)})
+		g, err := roman.DefaultParser(romanNamedS(text), r)
+		out = append(out, res{"DefaultParser[named string]", g, err, false, romanTyped(err)})
+		g, err = roman.DefaultParser(romanNamedB(text), r)
+		out = append(out, res{"DefaultParser[named []byte]", g, err, false, romanTyped(err)})
+		err = roman.Valid(romanNamedS(text), r)
+		out = append(out, res{"Valid[named string]", 0, err, true, romanTyped(err)})
+		err = roman.Valid(romanNamedB(text), r)
+		out = append(out, res{"Valid[named []byte]", 0, err, true, romanTyped(err)})
 	}
 	{ // the text sits inside a larger buffer: what follows it belongs to the caller
 		rec := append(append(make([]byte, 0, len(text)+16), text...), "|VIX"...)
 		g, err := roman.DefaultParser(rec[:len(text)], r)
-		var pe *roman.NumberFormatError[[]byte]
-		out = append(out, res{"DefaultParser[[]byte] on a sub-slice", g, err, false, errors.As(err, &pe)})
+		out = append(out, res{"DefaultParser[[]byte] on a sub-slice", g, err, false, romanTyped(err)})
 		verr := roman.Valid(rec[:len(text)], r)
-		out = append(out, res{"Valid[[]byte] on a sub-slice", 0, verr, true, errors.As(verr, &pe)})
+		out = append(out, res{"Valid[[]byte] on a sub-slice", 0, verr, true, romanTyped(verr)})
 		if string(rec[len(text):]) != "|VIX" {
 			c10Fail(w, "parser-wrote-behind-input", text, r, "DefaultParser/Valid on a sub-slice", string(rec), text+"|VIX")
 		}
 		// the exported Parser variable is an entry point of its own
 		g, err = roman.Parser([]byte(text), r)
-		out = append(out, res{"Parser variable", g, err, false, errors.As(err, &pe)})
+		out = append(out, res{"Parser variable", g, err, false, romanTyped(err)})
 	}
 	if r == 0 {
 		u := roman.Number(777777)
 		err := u.UnmarshalText([]byte(text))
-		var pe *roman.NumberFormatError[[]byte]
-		typed := errors.As(err, &pe)
+		typed := romanTyped(err)
 		if err != nil {
 			if u != 777777 {
 				c10Fail(w, "unmarshal-receiver-changed-on-error", text, r, "UnmarshalText", fmt.Sprint(uint64(u)), "777777 (untouched)")
@@ -147,6 +151,24 @@ func caseVariant(s string, variant int, h uint64) string {
 	x := rt.HashU(h, uint64(variant)) | 1<<uint(len(b)) // at least defined bits
 	for i := range b {
 		if x>>uint(i)&1 == 1 {
+			b[i] += 'a' - 'A'
+		}
+	}
+	return string(b)
+}
+
+// caseVariantLong: like caseVariant for texts of any length (the case pattern repeats every 61 bytes).
+func caseVariantLong(s string, variant int, h uint64) string {
+	switch variant {
+	case 0:
+		return s
+	case 1:
+		return strings.ToLower(s)
+	}
+	b := []byte(s)
+	x := rt.HashU(h, uint64(variant)) | 1
+	for i := range b {
+		if x>>uint(i%61)&1 == 1 && b[i] >= 'A' && b[i] <= 'Z' {
 			b[i] += 'a' - 'A'
 		}
 	}
@@ -304,6 +326,32 @@ func runC10(c *rt.Ctx) {
 			}
 		}
 		collisionHistories(c, texts, 300, 100, func(w *rt.W, t string) { c10Case(w, t, 0) })
+	}
+	{
+		oldL := roman.MaxInputLength
+		for _, limit := range []int{0, 5000} {
+			roman.MaxInputLength = limit
+			c.Parallel(fmt.Sprintf("long-numerals-%d", limit), 0, func(w *rt.W) {
+				for k := 0; k < 6000/w.NShards; k++ {
+					n := uint64(110000 + w.Rng.Intn(900000))
+					_, rf := romanFlags(w.Rng.Intn(128))
+					base := ref.RomanFormat(n, rf)
+					h := rt.Hash64(base)
+					for variant := 0; variant < 4; variant++ {
+						c10Case(w, caseVariantLong(base, variant, h), 0)
+					}
+					// lower-case tail behind an upper-case run and the other way round
+					cut := len(base) - 1 - w.Rng.Intn(6)
+					if cut > 0 {
+						c10Case(w, base[:cut]+strings.ToLower(base[cut:]), 0)
+						c10Case(w, strings.ToLower(base[:cut])+base[cut:], 0)
+					}
+					w.ClassN("long-numeral-with-limit-raised", 1)
+				}
+			})
+		}
+		roman.MaxInputLength = oldL
+		c.Require("long-numeral-with-limit-raised", 10000)
 	}
 	c.Require("accepted-variant-0", 1000)
 	c.Require("accepted-variant-1", 1000)
